@@ -316,6 +316,18 @@ theorem target_owned_flat_partial (env : Env) (silent : Bool) (s : Stmt) (g : LG
     · have : u = p.2 := congrArg Prod.snd hx
       rw [this, hd] at hnone; cases hnone
 
+/-- a plain SELECT over base tables (no subquery) moves no column: its holder is exactly the reads of its FROM clause —
+    every edge is the HAS_ALIAS edge of a table reference, there is no LINEAGE and no HAS_COLUMN edge (any references, any
+    provider) -/
+theorem select_moves_no_column_partial (env : Env) (silent : Bool) (s : Stmt) (hs : fragPlainSelect s = true) :
+    ∃ g, analyze env silent s = .ok g ∧
+      ∀ u v, (u, v) ∈ g.edges → g.ety u v = some .hasAlias ∧ aliasPair (fromTabs env (match s with
+        | .query (.select _ _ frm _ _ _) _ => frm | _ => [])) u v := by
+  obtain ⟨d, its, frm, wh, grp, hav, br, rfl, hg⟩ := analyze_plain env silent s hs
+  refine ⟨_, hg, fun u v he => ?_⟩
+  have := reads_edges (fromTabs env frm) (fromTabs_isTabRef env frm) u v
+  exact ⟨this.2 he, this.1.mp he⟩
+
 /-! #### reading the specification (all by `ColumnsExact`): keys of target and source columns, what a qualifier denotes -/
 
 /-- target column key: `<written table>.<item name>` owned by the written table -/
